@@ -17,6 +17,8 @@ pub fn run(ctx: &Ctx) -> Report {
         Plan { fam: "BLK", styles: styles.clone(), debug: vec![true], stride: ctx.pick(3, 1) },
         Plan { fam: "S1", styles: styles.clone(), debug: vec![true], stride: 1 },
         Plan { fam: "S2", styles: styles.clone(), debug: vec![true], stride: ctx.pick(5, 1) },
+        // string literals over {a, blank, TAB, LF, CR, NUL, quote, backslash, ;, e-acute} followed by another statement: sizes in words vs characters vs bytes
+        Plan { fam: "STR", styles: vec![(0, DEFAULT_SECONDARY), (5 * 324, 1 + 20)], debug: vec![true], stride: ctx.pick(3, 1) },
         Plan { fam: "F1", styles: vec![(0, DEFAULT_SECONDARY), (11 * 324, 1 + 20)], debug: vec![true], stride: 1 },
     ];
     run_plans(ctx, &mut rep, "C24", &plans, &|i| i.accepted && i.image_words > 0);
